@@ -235,9 +235,13 @@ def array_differential(chk, d, repo, broken):
 
 def model_verdicts(cases):
     """cases: [(data, debug)] -> ['ok' | 'err N' | 'ub reason']"""
-    lines = [rd.line_for(b, dbg, True) for b, dbg in cases]
+    uniq = {}
+    for b, dbg in cases:               # the same image is run under many option sets: ask the model once
+        uniq.setdefault((b, dbg), len(uniq))
+    lines = [rd.line_for(b, dbg, True) for (b, dbg) in uniq]
     out = vlib.DriverProc(READERDRIVER).batch(lines, timeout=1800)
-    return [x if not x.startswith("ok") else "ok" for x in out]
+    out = [x if not x.startswith("ok") else "ok" for x in out]
+    return [out[uniq[(b, dbg)]] for b, dbg in cases]
 
 
 def run(tier):
